@@ -32,6 +32,8 @@ var (
 // stand-in for ActiveScenario.Run: the iteration body as a ghost interval
 func c02RunFn(s *ActiveScenario, state *iterationState) {
 	tid := zz.ThreadID()
+	zz.Event("iter.start", tid*c02MaxStarts+c02StartLocal[tid]) // ghost: the k-th iteration started by this worker
+	c02StartLocal[tid]++
 	inflight := c02InFlight.Add(1)
 	zz.Assert("C04.never_more_than_concurrency_in_flight", inflight <= int64(c02Pool.numWorkers))
 	if inflight == int64(c02Pool.numWorkers) {
@@ -43,6 +45,11 @@ func c02RunFn(s *ActiveScenario, state *iterationState) {
 	c02Started.Add(1)
 	c02InFlight.Add(-1)
 }
+
+// per model thread: number of iterations it has started (names the "iter.start" ghost events)
+const c02MaxStarts = 8
+
+var c02StartLocal [24]int
 
 func c02DroppedFn(s *ActiveScenario) { c02Dropped.Add(1) }
 
@@ -56,12 +63,29 @@ func c02CondWait(c *sync.Cond) {
 	c.Wait()
 }
 
+// wrapper around sync.WaitGroup.Done: a worker leaves the pool (signs off from the manager's running-workers group)
+// only when the pool has been told to stop or the worker itself was refused an id (limit reached) - never while the
+// pool is running and able to take work: otherwise pending requests could no longer occupy `concurrency` workers
+func c02WgDone(wg *sync.WaitGroup) {
+	tid := zz.ThreadID()
+	if c02Mgr != nil && wg == &c02Mgr.runningWorkers && tid >= c02FirstTid && tid < c02FirstTid+c02Pool.numWorkers {
+		zz.Assert("C04.worker_leaves_only_when_pool_stops_or_limit_reached", c02Pool.stopWorkers.Load() || c02Refused[tid])
+	}
+	wg.Add(-1)
+}
+
+var (
+	c02Mgr     *PoolManager
+	c02Refused [24]bool
+)
+
 // wrapper around the real NextIteration: records what was granted
 func c02NextIteration(m *PoolManager) (uint64, error) {
 	id, err := m.NextIteration()
 	if err == nil {
 		c02LastID[zz.ThreadID()] = id
 	} else {
+		c02Refused[zz.ThreadID()] = true
 		zz.Event("refused", zz.ThreadID()) // a worker that is refused stops: at most one refusal per thread
 	}
 	return id, err
@@ -83,7 +107,10 @@ func c02Scenario(cfg c02Config) {
 	m := New(limit, as)
 	pool := m.NewTriggerPool(cfg.workers)
 	c02Pool = pool
+	c02Mgr = m
 	c02FirstTid = 1
+	c02StartLocal = [24]int{}
+	c02Refused = [24]bool{}
 	ctx, cancel := context.WithCancel(context.Background())
 	workerCtx := pool.Start(ctx)
 	zz.Event("started")
@@ -103,6 +130,7 @@ func c02Scenario(cfg c02Config) {
 		live := workerCtx.Err() == nil
 		zz.Event("tick", i)
 		pool.Trigger(workerCtx, n)
+		zz.Event("tick.done", i)
 		requested += int64(n)
 		_ = live
 	}
@@ -163,6 +191,26 @@ func c02Scenario(cfg c02Config) {
 			}
 		}
 	}
+	// every tick SUPERSEDES what was pending: between the moment tick i has been published and the next tick, at most
+	// n_i iterations can be taken from it, plus at most one straggler per worker whose take preceded the publication
+	// (so load requested by an earlier tick is never applied in a later interval - also when the later tick asks
+	// for nothing). Ticks that are not admitted - context already cancelled, limit already reached - are exempt.
+	for i := 0; i < cfg.ticks && !envCancels; i++ {
+		if lateTick[i] {
+			continue // not admitted: the limit had been reached (triggering is over)
+		}
+		after := 0
+		for w := 0; w < cfg.workers; w++ {
+			for k := 0; k < c02MaxStarts; k++ {
+				id := (c02FirstTid+w)*c02MaxStarts + k
+				if zz.Happened("iter.start", id) && zz.Before("tick.done", "iter.start", i, id) &&
+					(i == cfg.ticks-1 || zz.Before("iter.start", "tick", id, i+1)) {
+					after++
+				}
+			}
+		}
+		zz.Assert("C02.tick_supersedes_pending_requests", after <= zz.Int("n", i)+cfg.workers)
+	}
 	// the requests of the not-late ticks pay for every start, every refused take and every reported drop
 	zz.Assert("C02.limit_starved_requests_never_reported_dropped", dropped+started+refusals <= droppable)
 	anyRefusal := false
@@ -185,6 +233,7 @@ func c02Scenario(cfg c02Config) {
 //verif:timeout 300
 //verif:replace (*$M/internal/workers.ActiveScenario).Run c02RunFn
 //verif:replace (*sync.Cond).Wait c02CondWait
+//verif:replace (*sync.WaitGroup).Done c02WgDone
 //verif:replace (*$M/internal/workers.ActiveScenario).RecordDroppedIteration c02DroppedFn
 //verif:replace (*$M/internal/workers.PoolManager).NextIteration c02NextIteration
 func VerifC02_OneWorker() { c02Scenario(c02Config{workers: 1, ticks: 2, nmax: 2, maxLimit: 2}) }
@@ -197,11 +246,28 @@ func VerifC02_OneWorker() { c02Scenario(c02Config{workers: 1, ticks: 2, nmax: 2,
 //verif:tier thorough
 //verif:replace (*$M/internal/workers.ActiveScenario).Run c02RunFn
 //verif:replace (*sync.Cond).Wait c02CondWait
+//verif:replace (*sync.WaitGroup).Done c02WgDone
 //verif:replace (*$M/internal/workers.ActiveScenario).RecordDroppedIteration c02DroppedFn
 //verif:replace (*$M/internal/workers.PoolManager).NextIteration c02NextIteration
 func VerifC02_TwoWorkers() { c02Scenario(c02Config{workers: 2, ticks: 2, nmax: 2, maxLimit: 2}) }
 
 // ---- the same scenario under the other properties it decides ---------------------------------
+
+// VerifC09_TickSupersedesPending: the trigger-pool scenario under C09 ("f1 never applies more load than the configured
+// profile allows"): every admitted tick - also one that asks for nothing - replaces what was still pending, so load
+// requested for one interval is not applied in a later one (obligation C02.tick_supersedes_pending_requests).
+//
+//verif:conc
+//verif:unroll 3
+//verif:timeout 300
+//verif:replace (*$M/internal/workers.ActiveScenario).Run c02RunFn
+//verif:replace (*sync.Cond).Wait c02CondWait
+//verif:replace (*sync.WaitGroup).Done c02WgDone
+//verif:replace (*$M/internal/workers.ActiveScenario).RecordDroppedIteration c02DroppedFn
+//verif:replace (*$M/internal/workers.PoolManager).NextIteration c02NextIteration
+func VerifC09_TickSupersedesPending() {
+	c02Scenario(c02Config{workers: 1, ticks: 2, nmax: 2, maxLimit: 0})
+}
 
 // VerifC03_TriggerPoolIds: trigger pool, workers racing for the last ids: at most `limit` iterations start, exactly
 // `limit` when the limit ended the run, and the id granted by the dispenser is the one the iteration observes.
@@ -211,6 +277,7 @@ func VerifC02_TwoWorkers() { c02Scenario(c02Config{workers: 2, ticks: 2, nmax: 2
 //verif:timeout 300
 //verif:replace (*$M/internal/workers.ActiveScenario).Run c02RunFn
 //verif:replace (*sync.Cond).Wait c02CondWait
+//verif:replace (*sync.WaitGroup).Done c02WgDone
 //verif:replace (*$M/internal/workers.ActiveScenario).RecordDroppedIteration c02DroppedFn
 //verif:replace (*$M/internal/workers.PoolManager).NextIteration c02NextIteration
 func VerifC03_TriggerPoolIds() { c02Scenario(c02Config{workers: 1, ticks: 2, nmax: 2, maxLimit: 2}) }
@@ -223,6 +290,7 @@ func VerifC03_TriggerPoolIds() { c02Scenario(c02Config{workers: 1, ticks: 2, nma
 //verif:timeout 600
 //verif:replace (*$M/internal/workers.ActiveScenario).Run c02RunFn
 //verif:replace (*sync.Cond).Wait c02CondWait
+//verif:replace (*sync.WaitGroup).Done c02WgDone
 //verif:replace (*$M/internal/workers.ActiveScenario).RecordDroppedIteration c02DroppedFn
 //verif:replace (*$M/internal/workers.PoolManager).NextIteration c02NextIteration
 func VerifC04_TriggerPoolConcurrency() {
@@ -242,6 +310,8 @@ func c02ContinuousEnv(workers int, maxLimit uint64, earlyCancel bool) {
 	m := New(limit, as)
 	pool := m.NewContinuousPool(workers)
 	c02Pool = &TriggerPool{numWorkers: workers, iterationStatePool: pool.iterationStatePool}
+	c02Mgr = nil // the sign-off obligation of c02WgDone is about the trigger pool's workers
+	c02Refused = [24]bool{}
 	c02FirstTid = 1
 	if earlyCancel {
 		c02FirstTid = 2 // model thread 1 is the cancelling environment thread
@@ -271,6 +341,7 @@ func c02ContinuousEnv(workers int, maxLimit uint64, earlyCancel bool) {
 //verif:timeout 600
 //verif:replace (*$M/internal/workers.ActiveScenario).Run c02RunFn
 //verif:replace (*sync.Cond).Wait c02CondWait
+//verif:replace (*sync.WaitGroup).Done c02WgDone
 //verif:replace (*$M/internal/workers.PoolManager).NextIteration c02NextIteration
 func VerifC03_ContinuousPool() { c02Continuous(2, 3) }
 
@@ -281,6 +352,7 @@ func VerifC03_ContinuousPool() { c02Continuous(2, 3) }
 //verif:timeout 600
 //verif:replace (*$M/internal/workers.ActiveScenario).Run c02RunFn
 //verif:replace (*sync.Cond).Wait c02CondWait
+//verif:replace (*sync.WaitGroup).Done c02WgDone
 //verif:replace (*$M/internal/workers.PoolManager).NextIteration c02NextIteration
 func VerifC04_ContinuousPool() { c02Continuous(2, 0) }
 
@@ -295,6 +367,7 @@ func VerifC04_ContinuousPool() { c02Continuous(2, 0) }
 //verif:deadlock 1
 //verif:replace (*$M/internal/workers.ActiveScenario).Run c02RunFn
 //verif:replace (*sync.Cond).Wait c02CondWait
+//verif:replace (*sync.WaitGroup).Done c02WgDone
 //verif:replace (*$M/internal/workers.PoolManager).NextIteration c02NextIteration
 func VerifC05_ContinuousPoolShutdown() { c02ContinuousEnv(2, 1, true) }
 
@@ -310,6 +383,7 @@ func VerifC05_ContinuousPoolShutdown() { c02ContinuousEnv(2, 1, true) }
 //verif:deadlock 1
 //verif:replace (*$M/internal/workers.ActiveScenario).Run c02RunFn
 //verif:replace (*sync.Cond).Wait c02CondWait
+//verif:replace (*sync.WaitGroup).Done c02WgDone
 //verif:replace (*$M/internal/workers.ActiveScenario).RecordDroppedIteration c02DroppedFn
 //verif:replace (*$M/internal/workers.PoolManager).NextIteration c02NextIteration
 func VerifC05_PoolShutdown() { c02Scenario(c02Config{workers: 1, ticks: 2, nmax: 2, maxLimit: 2}) }
